@@ -136,7 +136,14 @@ impl SymbolsExportsModule {
         files: &mut R,
         following: &mut Vec<BffFileName>,
     ) -> Option<Rc<SymbolExport>> {
-        let known = self.named_values.get(name).cloned().or_else(|| {
+        // what the module exports by name (also `export { a } from "./m"`, whose kind is not known
+        // here) shadows what it merely passes on with `export *`
+        let own = self
+            .named_values
+            .get(name)
+            .or_else(|| self.named_unknown.get(name))
+            .cloned();
+        let known = own.or_else(|| {
             for it in &self.extends {
                 if following.contains(it) {
                     continue;
@@ -153,7 +160,7 @@ impl SymbolsExportsModule {
             None
         });
 
-        known.or_else(|| self.named_unknown.get(name).cloned())
+        known
     }
 
     pub fn insert_type(&mut self, name: String, export: Rc<SymbolExport>) {
@@ -186,7 +193,14 @@ impl SymbolsExportsModule {
         files: &mut R,
         following: &mut Vec<BffFileName>,
     ) -> Option<Rc<SymbolExport>> {
-        let known = self.named_types.get(name).cloned().or_else(|| {
+        // what the module exports by name (also `export { a } from "./m"`, whose kind is not known
+        // here) shadows what it merely passes on with `export *`
+        let own = self
+            .named_types
+            .get(name)
+            .or_else(|| self.named_unknown.get(name))
+            .cloned();
+        let known = own.or_else(|| {
             for it in &self.extends {
                 if following.contains(it) {
                     continue;
@@ -203,7 +217,7 @@ impl SymbolsExportsModule {
             None
         });
 
-        known.or_else(|| self.named_unknown.get(name).cloned())
+        known
     }
 
     pub fn extend(&mut self, other: BffFileName) {
